@@ -179,6 +179,14 @@ type ChT struct{ X string }
 type ChU struct{ Y string }
 type ChW struct{ Z string }
 
+// opaque state: only unexported fields, carried by a transform; as an omitempty field it is empty only when that state is zero
+type Stamp struct{ sec int64 }
+type HasStamp struct {
+	S Stamp `refmt:",omitempty"`
+	N int
+	P *Stamp `refmt:",omitempty"`
+}
+
 // a keyed union whose member is itself a keyed union (atlas 90): served by one and the same machine of one slab row
 type UzOuter interface{}
 type UzInner interface{}
@@ -366,6 +374,9 @@ var transforms = []trPair{
 			}
 			return ChW{*p}, nil
 		}},
+	{17,
+		func(t Stamp) (int64, error) { return t.sec, nil },
+		func(v int64) (Stamp, error) { return Stamp{v}, nil }},
 	{12,
 		func(t TrIn) (Inner, error) { return Inner{t.X, t.Y}, nil },
 		func(i Inner) (TrIn, error) { return TrIn{i.X, i.Y}, nil }},
@@ -568,12 +579,13 @@ func buildAtlases() {
 	trFuncID[reflect.TypeOf(TrSq{})] = 5
 	trFuncID[reflect.TypeOf(TrIn{})] = 12
 	trFuncID[reflect.TypeOf(TrKey(""))] = 13
+	trFuncID[reflect.TypeOf(Stamp{})] = 17
 	trFuncID[reflect.TypeOf(TrMap{})] = 6
 	trFuncID[reflect.TypeOf(TrOpt{})] = 7
 	trFuncID[reflect.TypeOf(TrW{})] = 8
 	trFuncID[reflect.TypeOf(TrN{})] = 9
 	trFuncID[reflect.TypeOf(Digest{})] = 10
-	structs := []interface{}{Inner{}, WithPtr{}, Emb{}, Rec{}, Tagged{}, OmitAll{}, Nums{}, HasShape{}, HasNoAtlas{}, MapKeyed{}, TwoMaps{}, TwoTr{}, Wide{}, Fold{}, PaySum{}, Narrow{}, reflect.New(hugeT130).Elem().Interface(), reflect.New(hugeT260).Elem().Interface(), Big9a{}, Big9b{}, Blob{}, Circle{}, Square{}}
+	structs := []interface{}{Inner{}, WithPtr{}, Emb{}, Rec{}, Tagged{}, OmitAll{}, Nums{}, HasShape{}, HasNoAtlas{}, MapKeyed{}, TwoMaps{}, TwoTr{}, Wide{}, Fold{}, PaySum{}, Narrow{}, reflect.New(hugeT130).Elem().Interface(), reflect.New(hugeT260).Elem().Interface(), HasStamp{}, Big9a{}, Big9b{}, Blob{}, Circle{}, Square{}}
 	mk := func(id int, sort atlas.KeySortMode, mode atlas.KeySortMode, tags bool, extra ...*atlas.AtlasEntry) {
 		var es []*atlas.AtlasEntry
 		{
@@ -603,7 +615,7 @@ func buildAtlases() {
 		if id == 4 {
 			ksTr = 11
 		}
-		es = append(es, trEntry(KeyStruct{}, ksTr, -1), trEntry(TrNum(0), 2, tt), trEntry(TrBytes{}, 3, tt+1), trEntry(TrComp{}, 4, compTag), trEntry(TrSq{}, 5, sqTag), trEntry(TrMap{}, 6, -1), trEntry(TrOpt{}, 7, optTag), trEntry(TrW{}, 8, wTag), trEntry(TrN{}, 9, nTag), trEntry(Digest{}, 10, dTag), trEntry(TrIn{}, 12, inTag), trEntry(TrKey(""), 13, -1))
+		es = append(es, trEntry(KeyStruct{}, ksTr, -1), trEntry(TrNum(0), 2, tt), trEntry(TrBytes{}, 3, tt+1), trEntry(TrComp{}, 4, compTag), trEntry(TrSq{}, 5, sqTag), trEntry(TrMap{}, 6, -1), trEntry(TrOpt{}, 7, optTag), trEntry(TrW{}, 8, wTag), trEntry(TrN{}, 9, nTag), trEntry(Digest{}, 10, dTag), trEntry(TrIn{}, 12, inTag), trEntry(TrKey(""), 13, -1), trEntry(Stamp{}, 17, -1))
 		es = append(es, extra...)
 		a := atlas.MustBuild(es...)
 		if id != 6 {
@@ -626,7 +638,7 @@ func buildAtlases() {
 	mmU := mmEntry(map[string]interface{}{}, -1, atlas.KeySortMode_RFC7049)
 	{
 		save := structs
-		structs = []interface{}{Inner{}, WithPtr{}, Rec{}, Tagged{}, OmitAll{}, Nums{}, HasShape{}, HasNoAtlas{}, MapKeyed{}, TwoMaps{}, TwoTr{}, Wide{}, Fold{}, PaySum{}, reflect.New(hugeT130).Elem().Interface(), reflect.New(hugeT260).Elem().Interface(), Big9a{}, Big9b{}, Blob{}, Circle{}, Square{}}
+		structs = []interface{}{Inner{}, WithPtr{}, Rec{}, Tagged{}, OmitAll{}, Nums{}, HasShape{}, HasNoAtlas{}, MapKeyed{}, TwoMaps{}, TwoTr{}, Wide{}, Fold{}, PaySum{}, reflect.New(hugeT130).Elem().Interface(), reflect.New(hugeT260).Elem().Interface(), HasStamp{}, Big9a{}, Big9b{}, Blob{}, Circle{}, Square{}}
 		narrowEntry := atlas.BuildEntry(Narrow{}).StructMap().
 			AddField("A", atlas.StructMapEntry{SerialName: "a", Type: reflect.TypeOf(int64(0))}).
 			AddField("B", atlas.StructMapEntry{SerialName: "b", Type: reflect.TypeOf(uint64(0))}).
@@ -758,7 +770,7 @@ func rootTypes() []reflect.Type {
 		float32(0), float64(0), []byte{}, MyInt(0), MyI8(0), MyI16(0), MyU16(0), MyU32(0), MyStr(""), MyBool(false), MyF32(0), MyBytes{},
 		Arr4{}, Arr0{}, [3]byte{}, []MyByte{}, [2]MyByte{},
 		Inner{}, WithPtr{}, Emb{}, EmbPtr{}, Rec{}, Tagged{}, OmitAll{}, Nums{}, KeyStruct{}, TrNum(0), TrBytes{}, TrComp{}, HasShape{},
-		NoAtlas{}, HasNoAtlas{}, MapKeyed{}, MapInt{}, StrMap{}, Circle{}, Square{}, TwoMaps{}, TrSq{}, []TrSq{}, map[string]TrSq{}, TrMap{}, []TrMap{}, map[string]TrMap{}, [2]TrMap{}, TrOpt{}, []TrOpt{}, TwoTr{}, Wide{}, TrW{}, TrN{}, []TrW{}, []TrN{}, Digest{}, []Digest{}, map[string]Digest{}, KeyedMap{}, []KeyedMap{}, Fold{}, []Fold{}, Blob{}, PaySum{}, []PaySum{}, Narrow{}, []uint64{}, map[string]Shape{}, [3]Shape{}, (*Circle)(nil), struct{ Circle }{}, TrIn{}, []TrIn{}, TrKey(""), map[TrKey]int{}, []TrKey{}, Big9a{}, Big9b{}, map[string]*int16{}, map[string]*uint8{}, reflect.New(hugeT130).Elem().Interface(), reflect.New(hugeT260).Elem().Interface(), map[string]NoAtlas{}, map[string][]NoAtlas{}, []map[string]int{}, (*int64)(nil), []int64{}, [2][]byte{}, [1]*[4]byte{}, [2]interface{}{}, [2]map[string]int{}, [2][]int{},
+		NoAtlas{}, HasNoAtlas{}, MapKeyed{}, MapInt{}, StrMap{}, Circle{}, Square{}, TwoMaps{}, TrSq{}, []TrSq{}, map[string]TrSq{}, TrMap{}, []TrMap{}, map[string]TrMap{}, [2]TrMap{}, TrOpt{}, []TrOpt{}, TwoTr{}, Wide{}, TrW{}, TrN{}, []TrW{}, []TrN{}, Digest{}, []Digest{}, map[string]Digest{}, KeyedMap{}, []KeyedMap{}, Fold{}, []Fold{}, Blob{}, PaySum{}, []PaySum{}, Narrow{}, []uint64{}, map[string]Shape{}, [3]Shape{}, (*Circle)(nil), struct{ Circle }{}, TrIn{}, []TrIn{}, TrKey(""), map[TrKey]int{}, []TrKey{}, Stamp{}, HasStamp{}, []HasStamp{}, Big9a{}, Big9b{}, map[string]*int16{}, map[string]*uint8{}, reflect.New(hugeT130).Elem().Interface(), reflect.New(hugeT260).Elem().Interface(), map[string]NoAtlas{}, map[string][]NoAtlas{}, []map[string]int{}, (*int64)(nil), []int64{}, [2][]byte{}, [1]*[4]byte{}, [2]interface{}{}, [2]map[string]int{}, [2][]int{},
 		[]int{}, []string{}, [2]string{}, [0]int{}, [][]int{}, []*int{}, []interface{}{}, map[string]int{}, map[string]interface{}{},
 		map[string][]byte{}, map[string]map[string]string{}, map[KeyStruct]string{}, map[TrNum]int{}, map[int]int{}, map[MyStr]int{},
 		(*int)(nil), (**string)(nil), (*[]int)(nil), (*Inner)(nil), (***Inner)(nil), (*interface{})(nil), []*Inner{}, map[string]*Rec{},
